@@ -25,18 +25,19 @@ import (
 
 // hostileScn: one damaged session against a real daemon or client (C08).
 type hostileScn struct {
-	ID     int      `json:"id"`
-	Victim string   `json:"victim"` // daemon-sender | daemon-receiver | client
-	Field  string   `json:"field"`  // field to damage ("" with Kind argline/noise)
-	Class  string   `json:"class"`
-	Kind   string   `json:"kind"`  // "" (field mutation) | argline | noise | cut
-	Args   []string `json:"args"`  // argline: extra argument lines
-	Seed   int64    `json:"seed"`  // noise
-	Cut    int      `json:"cut"`   // cut: truncate our stream at this offset
-	Only   bool     `json:"only"`  // argline: Args are the ONLY argument lines (nothing of the valid request)
-	Frame  int      `json:"frame"` // bigframe (client): one data frame of this many bytes, all delivered
-	Field2 string   `json:"field2"` // pair mutation: a second field of the same header damaged as well
-	Class2 string   `json:"class2"`
+	ID       int      `json:"id"`
+	Victim   string   `json:"victim"` // daemon-sender | daemon-receiver | client
+	Field    string   `json:"field"`  // field to damage ("" with Kind argline/noise)
+	Class    string   `json:"class"`
+	Kind     string   `json:"kind"`     // "" (field mutation) | argline | noise | cut
+	Args     []string `json:"args"`     // argline: extra argument lines
+	Seed     int64    `json:"seed"`     // noise
+	Cut      int      `json:"cut"`      // cut: truncate our stream at this offset
+	Only     bool     `json:"only"`     // argline: Args are the ONLY argument lines (nothing of the valid request)
+	Frame    int      `json:"frame"`    // bigframe (client): one data frame of this many bytes, all delivered
+	NoServer bool     `json:"noserver"` // argline: the valid request WITHOUT its "--server" line (a hand-written client)
+	Field2   string   `json:"field2"`   // pair mutation: a second field of the same header damaged as well
+	Class2   string   `json:"class2"`
 }
 
 type hostileObs struct {
@@ -306,13 +307,13 @@ func hostileHandler(w *workerCtx, line []byte) (any, error) {
 		var script []byte
 		var hit bool
 		if s.Victim == "daemon-sender" {
-			fs := daemonSenderScript(fdata, s.Args, s.Only)
+			fs := dropServer(daemonSenderScript(fdata, s.Args, s.Only), s.NoServer)
 			script, hit, _ = serialise(preDamage(fs, s.Field2, s.Class2, rnd), s.Field, s.Class, rnd)
 			script = applyNoise(script, &s, rnd)
 			a.Write(script)
 		} else {
 			// two stages: the trailer of the uploaded file needs the daemon's seed
-			head := daemonReceiverHead(s.Args)
+			head := dropServer(daemonReceiverHead(s.Args), s.NoServer)
 			hb, hit1, cut := serialise(preDamage(head, s.Field2, s.Class2, rnd), s.Field, s.Class, rnd)
 			a.Write(hb)
 			hit = hit1
@@ -420,6 +421,20 @@ func applyNoise(script []byte, s *hostileScn, rnd *rand.Rand) []byte {
 		return out
 	}
 	return script
+}
+
+// dropServer removes the "--server" argument line.
+func dropServer(fs []fld, drop bool) []fld {
+	if !drop {
+		return fs
+	}
+	var out []fld
+	for _, f := range fs {
+		if f.name != "args.server" {
+			out = append(out, f)
+		}
+	}
+	return out
 }
 
 func daemonSenderScript(fdata []byte, extra []string, only bool) []fld {
